@@ -141,6 +141,13 @@ def _merge2(a, b):
         return slice_(a.args[0], a.args[1], a.w + b.w)
     if a.op == 'in' and b.op == 'in':
         return None
+    # a boolean replicated:  c ++ c == sext(c, 2) ; sext(c, k) ++ c == sext(c, k+1)
+    if a.w == 1 and a is b and a.op != 'const':
+        return mk('sext', (a,), 2)
+    if a.op == 'sext' and a.args[0].w == 1 and (b is a.args[0] or (b.op == 'sext' and b.args[0] is a.args[0])):
+        return mk('sext', (a.args[0],), a.w + b.w)
+    if b.op == 'sext' and b.args[0].w == 1 and a is b.args[0]:
+        return mk('sext', (a,), 1 + b.w)
     if a.op == b.op and a.op in ('and', 'or', 'xor') and len(a.args) == len(b.args) == 2:
         x = _merge2(a.args[0], b.args[0])
         y = _merge2(a.args[1], b.args[1])
@@ -335,6 +342,11 @@ def _bit1(op, a, b):
         pass
     elif a.op == 'const':
         a, b = b, a
+    if b.op == 'const' and a.op == 'select' and a.args[1].op == 'const' and a.args[2].op == 'const':
+        return select(a.args[0], _bit1(op, a.args[1], b), _bit1(op, a.args[2], b))
+    if b.op == 'const' and op == 'and' and _mask_cond(a) is not None and b.args[0] not in (0, (1 << w) - 1):
+        # and(replicated bool, K) is select(c, K, 0): keep the constant whole (step(): mask & 1.0f)
+        return select(_mask_cond(a), b, zeros(w))
     if b.op == 'const':
         v = b.args[0]
         full = (1 << w) - 1
@@ -377,12 +389,38 @@ def _bit1(op, a, b):
         return select(cb, not_(a), a)
     if a.op == 'select' and b.op == 'select' and a.args[0] is b.args[0]:
         return select(a.args[0], bitop(op, a.args[1], b.args[1]), bitop(op, a.args[2], b.args[2]))
+    if op in ('or', 'xor') and a.op == 'select' and b.op == 'select' and _is_zero(a.args[2]) and _is_zero(b.args[2]) and exclusive(a.args[0], b.args[0]):
+        # masks of mutually exclusive conditions:  (c1 ? K1 : 0) | (c2 ? K2 : 0)  ==  c1 ? K1 : (c2 ? K2 : 0)
+        return select(a.args[0], a.args[1], select(b.args[0], b.args[1], zeros(w)))
     if w == 1:
         r = _bool_simpl(op, a, b)
         if r is not None:
             return r
     x, y = (a, b) if a.id <= b.id else (b, a)
     return mk(op, (x, y), w)
+
+
+def _is_zero(t):
+    return t.op == 'const' and t.args[0] == 0
+
+
+_REL = {'oeq': {'eq'}, 'one': {'lt', 'gt'}, 'olt': {'lt'}, 'ole': {'lt', 'eq'}, 'ord': {'lt', 'eq', 'gt'},
+        'ueq': {'eq', 'uno'}, 'une': {'lt', 'gt', 'uno'}, 'ult': {'lt', 'uno'}, 'ule': {'lt', 'eq', 'uno'}, 'uno': {'uno'}}
+_FLIP = {'lt': 'gt', 'gt': 'lt', 'eq': 'eq', 'uno': 'uno'}
+
+
+def exclusive(c1, c2):
+    """two float compares on the same operand pair that cannot hold together"""
+    if c1.op != 'fcmp' or c2.op != 'fcmp':
+        return False
+    r1, r2 = _REL.get(c1.args[0]), _REL.get(c2.args[0])
+    if r1 is None or r2 is None:
+        return False
+    if c1.args[1] is c2.args[1] and c1.args[2] is c2.args[2]:
+        return not (r1 & r2)
+    if c1.args[1] is c2.args[2] and c1.args[2] is c2.args[1]:
+        return not (r1 & {_FLIP[x] for x in r2})
+    return False
 
 
 def _bool_simpl(op, a, b):
@@ -553,6 +591,12 @@ def select(c, a, b):
         sa, sb = _align(a, b)
         if len(sa) > 1 and any(x is y for x, y in zip(sa, sb)):
             return concat([select(c, x, y) for x, y in zip(sa, sb)])
+    if a.op == 'const' and b.op == 'const' and a.w > 1:
+        full = (1 << a.w) - 1
+        if a.args[0] == full and b.args[0] == 0:
+            return sext(c, a.w)
+        if a.args[0] == 0 and b.args[0] == full:
+            return sext(not_(c), a.w)
     if a.op == 'const' and b.op == 'const' and a.w <= 64:
         # per-bit: equal bits are constants, differing bits are c or !c  (so select(c,1,0):8 == zext(c))
         x, y = a.args[0], b.args[0]
